@@ -78,6 +78,8 @@ pub enum Val {
     Dyn(DynVal),
     /// skip: nothing returned
     Unit,
+    /// message envelope + body
+    Pair(Box<Val>, Box<Val>),
 }
 
 impl Val {
@@ -90,6 +92,7 @@ impl Val {
                 String::from("<debug panicked>")
             }),
             Val::Unit => "()".into(),
+            Val::Pair(a, b) => format!("({}, {})", a.debug(), b.debug()),
         }
     }
     pub fn same(&self, o: &Val) -> bool {
@@ -97,6 +100,7 @@ impl Val {
             (Val::Tv(a), Val::Tv(b)) => a == b,
             (Val::Dyn(a), Val::Dyn(b)) => a.eq_dyn(b.as_ref()),
             (Val::Unit, Val::Unit) => true,
+            (Val::Pair(a, b), Val::Pair(c, d)) => a.same(c) && b.same(d),
             _ => false,
         }
     }
@@ -269,8 +273,12 @@ pub fn run_mem(case: &Case, gens: &[GenType], caps: AllocCaps, tag: u64) -> LegO
     alloc::window_begin(tag, caps.single, caps.window);
     let r = catch_unwind(AssertUnwindSafe(|| match &case.level {
         Level::Gen(name) => {
-            let g = gens.iter().find(|g| g.name == name).expect("known generated type");
-            (g.dec_mem)(case.proto, &mut buf, want_trailer)
+            let (tname, call) = match name.strip_prefix("call::") {
+                Some(t) => (t, true),
+                None => (name.as_str(), false),
+            };
+            let g = gens.iter().find(|g| g.name == tname).expect("known generated type");
+            (g.dec_mem)(case.proto, &mut buf, want_trailer, call)
         }
         Level::SkipUnchecked => {
             let p = mem_unchecked(&mut buf, total);
@@ -318,10 +326,24 @@ pub struct GenMem {
     pub skip_ret: Option<usize>,
 }
 
-pub fn gen_dec_mem<T: pilota::thrift::Message + PartialEq + std::fmt::Debug + 'static>(proto: Proto, buf: &mut Bytes, want_trailer: bool) -> GenMem {
+fn envelope_tv(m: &pilota::thrift::TMessageIdentifier) -> TV {
+    TV::Struct(vec![(1, TV::Binary(m.name.as_bytes().to_vec())), (2, TV::I8(m.message_type as u8 as i8)), (3, TV::I32(m.sequence_number))])
+}
+
+pub fn gen_dec_mem<T: pilota::thrift::Message + PartialEq + std::fmt::Debug + 'static>(proto: Proto, buf: &mut Bytes, want_trailer: bool, call: bool) -> GenMem {
     let total = buf.len();
     with_mem_proto!(proto, buf, |p| {
-        let res = T::decode(&mut p).map(|v| Val::Dyn(Box::new(v) as DynVal));
+        let res = (|| {
+            if call {
+                // the service-call flow: envelope, generated body, message end - one protocol instance
+                let m = p.read_message_begin()?;
+                let v = T::decode(&mut p)?;
+                p.read_message_end()?;
+                Ok(Val::Pair(Box::new(Val::Tv(envelope_tv(&m))), Box::new(Val::Dyn(Box::new(v) as DynVal))))
+            } else {
+                T::decode(&mut p).map(|v| Val::Dyn(Box::new(v) as DynVal))
+            }
+        })();
         let consumed = total - p.buf().remaining();
         let mut next = None;
         if want_trailer && res.is_ok() {
@@ -402,12 +424,23 @@ pub async fn gen_dec_async<T: pilota::thrift::Message + PartialEq + std::fmt::De
     proto: Proto,
     s: &mut PosStream,
     want_trailer: bool,
+    call: bool,
 ) -> AsyncPart {
     use std::sync::atomic::Ordering::Relaxed;
     let pos = s.pos.clone();
     macro_rules! go {
         ($p:ident) => {{
-            let res = T::decode_async(&mut $p).await.map(|v| Val::Dyn(Box::new(v) as DynVal));
+            let res: Result<Val, ThriftException> = async {
+                if call {
+                    let m = $p.read_message_begin().await?;
+                    let v = T::decode_async(&mut $p).await?;
+                    $p.read_message_end().await?;
+                    Ok(Val::Pair(Box::new(Val::Tv(envelope_tv(&m))), Box::new(Val::Dyn(Box::new(v) as DynVal))))
+                } else {
+                    T::decode_async(&mut $p).await.map(|v| Val::Dyn(Box::new(v) as DynVal))
+                }
+            }
+            .await;
             let consumed = pos.load(Relaxed);
             let mut next = None;
             if want_trailer && res.is_ok() {
@@ -452,8 +485,12 @@ pub fn run_stream(case: &Case, gens: &[GenType], caps: AllocCaps, tag: u64) -> L
     alloc::window_begin(tag, caps.single, caps.window);
     let r = catch_unwind(AssertUnwindSafe(|| match &case.level {
         Level::Gen(name) => {
-            let g = gens.iter().find(|g| g.name == name).expect("known generated type");
-            let fut = (g.dec_async)(case.proto, &mut ps, want_trailer);
+            let (tname, call) = match name.strip_prefix("call::") {
+                Some(t) => (t, true),
+                None => (name.as_str(), false),
+            };
+            let g = gens.iter().find(|g| g.name == tname).expect("known generated type");
+            let fut = (g.dec_async)(case.proto, &mut ps, want_trailer, call);
             stream::run(&clock, fut, budget)
         }
         lv => {
